@@ -148,7 +148,7 @@ class Gen:
         return True
 
     def step(self):
-        fam = self.choice(['unary', 'binary', 'binary', 'reduce', 'shape', 'shape', 'index', 'index', 'linalg', 'logic', 'int', 'join', 'misc', 'pyscalar'])
+        fam = self.choice(['unary', 'binary', 'binary', 'reduce', 'shape', 'shape', 'index', 'index', 'linalg', 'logic', 'int', 'join', 'misc', 'pyscalar', 'einsum_ell'])
         isnum = lambda v, e: v.dtype.kind in 'ifc'
         isreal = lambda v, e: v.dtype.kind in 'if'
         isf = lambda v, e: v.dtype.kind == 'f'
@@ -241,16 +241,20 @@ class Gen:
             if self.integer(0, 3) == 0 and v.ndim >= 2:
                 ix = ['...'] + ix[-1:]
             if self.try_add('getitem', [a], dict(index=ix)): self.features.add('getitem')
-        elif fam == 'linalg':
-            op = self.choice(['matmul', 'dot', 'vdot', 'einsum', 'norm', 'det', 'cross', 'op_matmul'])
+        elif fam in ('linalg', 'einsum_ell'):
+            op = self.choice(['matmul', 'dot', 'vdot', 'einsum', 'einsum', 'norm', 'det', 'cross', 'op_matmul']) if fam == 'linalg' else 'einsum'
             a, b = self.pick(lambda v, e: v.ndim >= 1 and v.dtype.kind in 'ifc'), self.pick(lambda v, e: v.ndim >= 1 and v.dtype.kind in 'ifc')
             if a is None or b is None: return
             va, vb = self.pool[a][0], self.pool[b][0]
-            if op == 'einsum' and self.integer(0, 2) == 0:
+            if op == 'einsum' and (fam == 'einsum_ell' or self.integer(0, 1) == 0):
                 # ellipses in both operands, of different rank where the pool allows it: NumPy aligns the broadcast axes to the right
                 fmt = self.choice(['...i,...i->...', '...i,...i->...i', '...i,...j->...ij', 'i...,i...->...', '...,...->...', '...i,i->...'])
                 a3 = self.pick(lambda v, e: v.ndim >= 3 and v.dtype.kind in 'ifc')
-                if a3 is not None and self.integer(0, 2): a = a3      # two or more broadcast axes in the first operand, fewer in the second
+                if a3 is not None and self.integer(0, 2):      # two or more broadcast axes in the first operand, fewer in the second
+                    a = a3
+                    s3 = self.pool[a3][0].shape
+                    b3 = self.pick(lambda v, e: v.dtype.kind in 'ifc' and 1 <= v.ndim < len(s3) and v.shape == s3[len(s3) - v.ndim:])      # same trailing axes: broadcasts by construction
+                    if b3 is not None: b = b3
                 for pair in ([a, b], [b, a]):
                     if self.pool[pair[0]][0].ndim != self.pool[pair[1]][0].ndim or self.integer(0, 1):
                         if self.try_add('einsum', pair, dict(fmt=fmt)): self.features.add('einsum-ellipsis'); break
